@@ -1,18 +1,18 @@
 SPECIFICATION SpecView
 CONSTANTS
-  Repos = {"r1"}
+  Repos = {"r1", "r2"}
   Tags = {"t1"}
   Cids = {"b1", "b2", "img", "sub"}
-  BlobIds = {"b1", "b2"}
-  ManIds = {"img", "sub"}
+  BlobIds = {"b1"}
+  ManIds = {"img"}
   Cat <- MCCat
   UploadIds = {}
   ImmChoices = {FALSE}
   BlockSize = 8
   Pos <- MCPos
   Policies = {"seq", "conc"}
-  ListFaults <- MCFaults
-  MTs = {"image", "other"}
+  ListFaults <- NoFaults
+  MTs = {"image"}
   Depth = 0
 INVARIANTS TypeOK
 PROPERTIES UnionView TagConflictNeverSilent WriteBoth ReadsChangeNothing PoliciesAgree
